@@ -401,4 +401,580 @@ theorem bareCodec_coll : ∀ (N : Nat) (e : GoType) (oe : Bool) (c : Codec), bar
     all_goals (simp only [Option.some.injEq] at h; subst h)
     all_goals (refine ⟨fun hf => by simp [GoType.collChain] at hf, fun _ => by simp [IsColl, Codec.stripPtr]⟩)
 
+theorem ptrClause_zero (e : GoType) (y' y : GoVal) :
+    ptrClause 0 e y' y = .ptr (some (match e.strip with | .time => y | _ => y')) := by
+  unfold ptrClause
+  split <;> simp_all
+
+theorem ptrClause_nonptr (e : GoType) (x' x : GoVal) (hs : e.strip = e) (hp : isPtr e = false) :
+    ptrClause 7 e x' x = .ptr (some (adj e x' x)) := by
+  unfold ptrClause
+  rw [hs]
+  cases e <;> simp [isPtr] at hp <;> try (simp [adj]; done)
+  -- nullT
+  cases x <;> try (simp [adj]; done)
+  rename_i valid p
+  cases valid <;> simp [adj]
+
+theorem bareCodec_isPtr {N : Nat} {e : GoType} {oe : Bool} {c : Codec} (h : bareCodec N e oe = some c) :
+    (isPtr e = true → ∃ c2, c = .pointer c2) ∧ (isPtr e = false → ∀ c2, c ≠ .pointer c2) := by
+  cases N with
+  | zero => simp [bareCodec] at h
+  | succ N =>
+    cases e
+    case ptr e' =>
+      rw [bareCodec_ptr] at h
+      simp only [Option.map_eq_some_iff] at h
+      obtain ⟨c', -, rfl⟩ := h
+      exact ⟨fun _ => ⟨c', rfl⟩, fun hf => by simp [isPtr] at hf⟩
+    case slice e' =>
+      rw [bareCodec_slice] at h
+      refine ⟨fun hf => by simp [isPtr] at hf, fun _ c2 => ?_⟩
+      split at h
+      · simp only [Option.some.injEq] at h; subst h; simp
+      · simp only [Option.map_eq_some_iff] at h; obtain ⟨ci, -, rfl⟩ := h; simp
+    case map k v =>
+      rw [bareCodec_map] at h
+      refine ⟨fun hf => by simp [isPtr] at hf, fun _ c2 => ?_⟩
+      split at h
+      · simp only [Option.map_eq_some_iff] at h; obtain ⟨ci, -, rfl⟩ := h; simp
+      · contradiction
+    case struct nm pkg fs =>
+      rw [bareCodec_struct] at h
+      refine ⟨fun hf => by simp [isPtr] at hf, fun _ c2 => ?_⟩
+      split at h
+      · simp only [Option.map_eq_some_iff] at h; obtain ⟨ci, -, rfl⟩ := h; simp
+      · contradiction
+    all_goals (simp only [bareCodec] at h; try contradiction)
+    all_goals try (split at h <;> try contradiction)
+    all_goals (simp only [Option.some.injEq] at h; subst h)
+    all_goals (exact ⟨fun hf => by simp [isPtr] at hf, fun _ c2 => by simp⟩)
+
+/-! ### records whose targets are `0, 1, 2, …` -/
+
+theorem listSet_take {α : Type} : ∀ (acc : List α) (i : Nat) (a : α), i < acc.length →
+    (listSet acc i a).take (i + 1) = acc.take i ++ [a]
+  | [], _, _, h => by simp at h
+  | _ :: _, 0, _, _ => by simp [listSet]
+  | x :: xs, i + 1, a, h => by
+    simp only [listSet, List.take_succ_cons, List.cons_append, List.cons.injEq, true_and]
+    exact listSet_take xs i a (by simpa using h)
+
+theorem normFieldsWith_range' (f : Codec → GoVal → GoVal) (gs : List GoVal) :
+    ∀ (cs : List Codec) (i0 : Nat) (acc : List GoVal), acc.length = gs.length → gs.length = i0 + cs.length →
+      normFieldsWith f cs ((List.range' i0 cs.length).map some) gs acc
+        = acc.take i0 ++ List.zipWith f cs (gs.drop i0)
+  | [], i0, acc, h1, h2 => by
+    simp only [List.length_nil, Nat.add_zero] at h2
+    simp [normFieldsWith, List.take_of_length_le (show acc.length ≤ i0 by omega)]
+  | c :: cs, i0, acc, h1, h2 => by
+    simp only [List.length_cons] at h2
+    have hi : i0 < gs.length := by omega
+    have hg : gs[i0]? = some gs[i0] := by simp [hi]
+    simp only [List.length_cons, List.range'_succ, List.map_cons, normFieldsWith, hg]
+    rw [normFieldsWith_range' f gs cs (i0 + 1) _ (by rw [listSet_length, h1]) (by omega),
+      listSet_take acc i0 _ (by omega)]
+    have hd : gs.drop i0 = gs[i0] :: gs.drop (i0 + 1) := by
+      rw [List.drop_eq_getElem_cons hi]
+    simp only [List.append_assoc, List.singleton_append, hd, List.zipWith_cons_cons]
+
+theorem normFieldsWith_range (f : Codec → GoVal → GoVal) (cs : List Codec) (gs z : List GoVal)
+    (h1 : z.length = gs.length) (h2 : gs.length = cs.length) :
+    normFieldsWith f cs ((List.range cs.length).map some) gs z = List.zipWith f cs gs := by
+  rw [List.range_eq_range']
+  simpa using normFieldsWith_range' f gs cs 0 z h1 (by omega)
+
+theorem allSome_length {α : Type} : ∀ (l : List (Option α)) (r : List α), allSome l = some r → r.length = l.length
+  | [], r, h => by simp [allSome] at h; subst h; rfl
+  | none :: _, _, h => by simp [allSome] at h
+  | some a :: l, r, h => by
+    simp only [allSome, Option.map_eq_some_iff] at h
+    obtain ⟨r', hr', rfl⟩ := h
+    simp [allSome_length l r' hr']
+
+theorem typedFields_length {P : GoType → GoVal → Prop} : ∀ (fs : List GoField) (gs : List GoVal),
+    TypedFields P fs gs → gs.length = fs.length
+  | [], [], _ => rfl
+  | [], _ :: _, h => by simp [TypedFields] at h
+  | _ :: _, [], h => by simp [TypedFields] at h
+  | _ :: fs, _ :: gs, h => by simp [typedFields_length fs gs h.2]
+
+theorem zeroFields_length : ∀ fs : List GoField, (zeroFields fs).length = fs.length
+  | [] => rfl
+  | .mk _ _ _ _ _ :: fs => by simp [zeroFields, zeroFields_length fs]
+
+theorem zipWith_fields_agree (φ : GoField → Option Codec) (P : GoType → GoVal → Prop)
+    (F0 F7 : GoField → GoVal → GoVal) (Nm : Codec → GoVal → GoVal) :
+    ∀ (fs : List GoField) (cs : List Codec) (gs : List GoVal), allSome (fs.map φ) = some cs → TypedFields P fs gs →
+      (∀ f ∈ fs, ∀ c g, φ f = some c → P f.type g → F0 f (Nm c g) = F7 f g) →
+      List.zipWith F0 fs (List.zipWith Nm cs gs) = List.zipWith F7 fs gs
+  | [], _, _, _, _, _ => by simp
+  | _ :: _, _, [], _, h, _ => by simp [TypedFields] at h
+  | f :: fs, cs, g :: gs, ha, ht, hp => by
+    simp only [List.map_cons] at ha
+    cases hf : φ f with
+    | none => simp [hf, allSome] at ha
+    | some c =>
+      simp only [hf, allSome, Option.map_eq_some_iff] at ha
+      obtain ⟨cs', hcs', rfl⟩ := ha
+      simp only [List.zipWith_cons_cons, List.cons.injEq]
+      exact ⟨hp f (by simp) c g hf ht.1,
+        zipWith_fields_agree φ P F0 F7 Nm fs cs' gs hcs' ht.2 (fun f' hf' => hp f' (by simp [hf']))⟩
+
+section
+variable (env : Env)
+
+theorem omits_ptr_some {N : Nat} {e : GoType} {oe : Bool} {ce : Codec} (h : bareCodec N e oe = some ce)
+    (x : GoVal) : omits env (.pointer ce) (.ptr (some x)) = (isPtr e && omits env ce x) := by
+  obtain ⟨h1, h2⟩ := bareCodec_isPtr h
+  cases hp : isPtr e
+  · have := h2 hp
+    cases ce <;> first | (simp [omits]; done) | (exact absurd rfl (this _))
+  · obtain ⟨c2, rfl⟩ := h1 hp
+    simp [omits]
+
+/-- the statement proved by induction on the budget `N` of `bareCodec` / `fieldCodec` -/
+structure AgreeAt (N : Nat) : Prop where
+  bare : ∀ T oe cb g M n n', bareCodec N T oe = some cb → Typed M T g → N ≤ n → N ≤ n' →
+    (isPtr T = true →
+      (T.collChain = false → (omits env cb g = true ↔ normSpecD 7 n' T false g = .ptr none)) ∧
+      (T.collChain = true → omits env cb g = true → normSpecD 7 n' T false g = T.emptyChain)) ∧
+    ((isPtr T = true → T.collChain = false → omits env cb g = false) →
+      normSpecD 0 n' T false (normCodec env n cb g) = adj T (normSpecD 7 n' T false g) g)
+  field : ∀ T oe c g M n n', fieldCodec N T oe = some c → Typed M T g → N ≤ n → N ≤ n' →
+    normSpecD 0 n' T oe (normCodec env n c g) = normSpecD 7 n' T oe g
+
+theorem agree_zero : AgreeAt env 0 where
+  bare := by intro T oe cb g M n n' h; simp [bareCodec] at h
+  field := by intro T oe c g M n n' h; simp [fieldCodec] at h
+
+theorem agree_bare_ptr (hlaws : EnvLaws env) (N : Nat) (ih : AgreeAt env N) (e : GoType) (ce : Codec) (g : GoVal) (M n n' : Nat)
+    (hce : bareCodec N e false = some ce) (ht : Typed (M + 1) (.ptr e) g) (hn : N ≤ n) (hn' : N ≤ n') :
+    ((e.collChain = false → (omits env (.pointer ce) g = true ↔ normSpecD 7 (n' + 1) (.ptr e) false g = .ptr none)) ∧
+      (e.collChain = true → omits env (.pointer ce) g = true →
+        normSpecD 7 (n' + 1) (.ptr e) false g = .ptr (some e.emptyChain))) ∧
+    ((e.collChain = false → omits env (.pointer ce) g = false) →
+      normSpecD 0 (n' + 1) (.ptr e) false (normCodec env (n + 1) (.pointer ce) g)
+        = normSpecD 7 (n' + 1) (.ptr e) false g) := by
+  have hstrip := bareCodec_strip hce
+  obtain ⟨hc1, hc2⟩ := bareCodec_coll N e false ce hce
+  cases g <;> simp only [Typed] at ht
+  rename_i tgt
+  cases tgt with
+  | none =>
+    refine ⟨⟨fun hcc => ?_, fun hcc _ => ?_⟩, fun pre => ?_⟩
+    · simp [omits, normSpecD_ptr_none, hcc]
+    · simp [normSpecD_ptr_none, hcc]
+    · cases hcc : e.collChain
+      · have := pre hcc
+        simp [omits] at this
+      · obtain ⟨h3, h4⟩ := hc1 hcc
+        rw [norm_ptr_nil_coll env n ce h3, normSpecD_ptr_some, h4 n' hn', ptrClause_emptyChain _ _ _ hcc,
+          normSpecD_ptr_none]
+        simp [hcc]
+  | some x =>
+    have I := ih.bare e false ce x M n n' hce ht hn hn'
+    have I1 := I.1
+    have I2 := I.2
+    have hom := omits_ptr_some env hce x
+    rw [normSpecD_ptr_some]
+    refine ⟨⟨fun hcc => ?_, fun hcc ho => ?_⟩, fun pre => ?_⟩
+    · -- not a chain to a collection: omitted iff the oracle collapses to nil
+      rw [hom]
+      cases hp : isPtr e
+      · rw [ptrClause_nonptr e _ x hstrip hp]; simp
+      · obtain ⟨e2, rfl⟩ : ∃ e2, e = .ptr e2 := by cases e <;> simp [isPtr] at hp; exact ⟨_, rfl⟩
+        have J := (I1 hp).1 hcc
+        simp only [Bool.true_and]
+        rw [J]
+        constructor
+        · intro hx
+          rw [hx, ptrClause_ptr_nil, hcc]; rfl
+        · intro hpc
+          apply Classical.byContradiction
+          intro hne
+          rw [ptrClause_ptr_ne _ _ _ _ hne] at hpc
+          cases hpc
+    · -- a chain to a collection that ends in nil normalises to the chain to the empty collection
+      rw [hom] at ho
+      simp only [Bool.and_eq_true] at ho
+      rw [(I1 ho.1).2 hcc ho.2, ptrClause_emptyChain _ _ _ hcc]
+    · have hpre2 : isPtr e = true → e.collChain = false → omits env ce x = false := by
+        intro hp hcc
+        have := pre hcc
+        rw [hom, hp] at this
+        simpa using this
+      have hI2 := I2 hpre2
+      simp only [normCodec]
+      rw [normSpecD_ptr_some, hI2, ptrClause_zero, hstrip]
+      cases hp : isPtr e
+      · rw [ptrClause_nonptr e _ x hstrip hp]
+        cases e <;> try rfl
+        -- time behind a pointer: kept as it is
+        cases M with
+        | zero => simp [Typed] at ht
+        | succ M =>
+          cases x <;> simp only [Typed] at ht
+          obtain ⟨k, rfl⟩ : ∃ k, N = k + 1 := by
+            cases N with
+            | zero => simp [bareCodec] at hce
+            | succ k => exact ⟨k, rfl⟩
+          simp only [bareCodec, Option.some.injEq] at hce
+          subst hce
+          obtain ⟨m, rfl⟩ : ∃ m, n = m + 1 := ⟨n - 1, by omega⟩
+          simp [normCodec, adj, normTime_printable env hlaws _ ht]
+      · obtain ⟨e2, rfl⟩ : ∃ e2, e = .ptr e2 := by cases e <;> simp [isPtr] at hp; exact ⟨_, rfl⟩
+        simp only [adj]
+        by_cases hx : normSpecD 7 n' (.ptr e2) false x = .ptr none
+        · rw [hx, ptrClause_ptr_nil]
+          cases hcc : (GoType.ptr e2).collChain
+          · exfalso
+            have := ((I1 hp).1 hcc).2 hx
+            rw [hpre2 hp hcc] at this
+            contradiction
+          · rfl
+        · rw [ptrClause_ptr_ne _ _ _ _ hx]
+
+theorem agree_bare_step (hlaws : EnvLaws env) (N : Nat) (ih : AgreeAt env N) :
+    ∀ T oe cb g M n n', bareCodec (N + 1) T oe = some cb → Typed M T g → N + 1 ≤ n → N + 1 ≤ n' →
+    (isPtr T = true →
+      (T.collChain = false → (omits env cb g = true ↔ normSpecD 7 n' T false g = .ptr none)) ∧
+      (T.collChain = true → omits env cb g = true → normSpecD 7 n' T false g = T.emptyChain)) ∧
+    ((isPtr T = true → T.collChain = false → omits env cb g = false) →
+      normSpecD 0 n' T false (normCodec env n cb g) = adj T (normSpecD 7 n' T false g) g) := by
+  intro T oe cb g M n n' hb ht hn hn'
+  obtain ⟨n, rfl⟩ : ∃ k, n = k + 1 := ⟨n - 1, by omega⟩
+  obtain ⟨n', rfl⟩ : ∃ k, n' = k + 1 := ⟨n' - 1, by omega⟩
+  cases M with
+  | zero => simp [Typed] at ht
+  | succ M =>
+  cases T
+  case ptr e =>
+    rw [bareCodec_ptr] at hb
+    simp only [Option.map_eq_some_iff] at hb
+    obtain ⟨ce, hce, rfl⟩ := hb
+    have := agree_bare_ptr env hlaws N ih e ce g M n n' hce ht (by omega) (by omega)
+    simpa [isPtr, GoType.collChain, GoType.emptyChain, adj] using this
+  case slice e =>
+    rw [bareCodec_slice] at hb
+    refine ⟨fun hp => by simp [isPtr] at hp, fun hpre => ?_⟩
+    clear hpre
+    cases g <;> simp only [Typed] at ht
+    case bytes bs =>
+      simp only [ht, if_true, Option.some.injEq] at hb; subst hb
+      simp [normCodec, normSpecD, GoType.strip, adj]
+    case slice items =>
+      simp only [ht.1, if_false, Option.map_eq_some_iff, Bool.false_eq_true] at hb
+      obtain ⟨ci, hci, rfl⟩ := hb
+      simp only [normCodec, normSpecD, GoType.strip, adj, List.map_map, GoVal.slice.injEq]
+      exact List.map_congr_left fun x hx => ih.field e false ci x M n n' hci (ht.2 x hx) (by omega) (by omega)
+  case map k v =>
+    rw [bareCodec_map] at hb
+    refine ⟨fun hp => by simp [isPtr] at hp, fun hpre => ?_⟩
+    clear hpre
+    cases g <;> simp only [Typed] at ht
+    rename_i nl ks vs
+    split at hb
+    · simp only [Option.map_eq_some_iff] at hb
+      obtain ⟨ci, hci, rfl⟩ := hb
+      simp only [normCodec, normSpecD, GoType.strip, adj, List.map_map, GoVal.map.injEq, true_and]
+      exact List.map_congr_left fun x hx => ih.field v false ci x M n n' hci (ht.2 x hx) (by omega) (by omega)
+    · contradiction
+  case struct nm pkg fs =>
+    rw [bareCodec_struct] at hb
+    refine ⟨fun hp => by simp [isPtr] at hp, fun hpre => ?_⟩
+    clear hpre
+    cases g <;> simp only [Typed] at ht
+    rename_i gs
+    split at hb
+    · simp only [Option.map_eq_some_iff] at hb
+      obtain ⟨cs, hcs, rfl⟩ := hb
+      have hl1 := allSome_length _ _ hcs
+      simp only [List.length_map] at hl1
+      have hl2 := typedFields_length fs gs ht
+      rw [← hl1]
+      simp only [normCodec, normSpecD, GoType.strip, adj, GoVal.struct.injEq]
+      rw [normFieldsWith_range _ cs gs _ (by rw [zeroFields_length, hl2]) (by omega)]
+      exact zipWith_fields_agree _ (Typed M) _ _ _ fs cs gs hcs ht
+        (fun f _ c g hc hg => ih.field f.type _ c g M n n' hc hg (by omega) (by omega))
+    · contradiction
+  case time =>
+    simp only [bareCodec, Option.some.injEq] at hb; subst hb
+    refine ⟨fun hp => by simp [isPtr] at hp, fun hpre => ?_⟩
+    clear hpre
+    cases g <;> simp only [Typed] at ht
+    simp [normCodec, normSpecD, GoType.strip, adj, normTime_printable env hlaws _ ht]
+  case nullT k =>
+    simp only [bareCodec, Option.some.injEq] at hb; subst hb
+    refine ⟨fun hp => by simp [isPtr] at hp, fun hpre => ?_⟩
+    clear hpre
+    cases g <;> simp only [Typed] at ht
+    rename_i valid inner
+    cases k <;> cases inner <;> simp only [nullInnerTyped] at ht <;>
+      cases valid <;> simp [normCodec, normSpecD, GoType.strip, adj]
+    all_goals exact normTime_printable env hlaws _ ht
+  case float32 =>
+    simp only [bareCodec, Option.some.injEq] at hb; subst hb
+    refine ⟨fun hp => by simp [isPtr] at hp, fun hpre => ?_⟩
+    clear hpre
+    cases g <;> simp only [Typed] at ht
+    simp [normCodec, normSpecD, GoType.strip, adj, hlaws.narrow_widen _ ht]
+  case int w =>
+    simp only [bareCodec] at hb
+    split at hb <;> try contradiction
+    simp only [Option.some.injEq] at hb; subst hb
+    refine ⟨fun hp => by simp [isPtr] at hp, fun hpre => ?_⟩
+    clear hpre
+    cases g <;> simp only [Typed] at ht
+    simp [normCodec, normSpecD, GoType.strip, adj]
+  all_goals (simp only [bareCodec] at hb; try contradiction)
+  all_goals (simp only [Option.some.injEq] at hb; subst hb)
+  all_goals (refine ⟨fun hp => by simp [isPtr] at hp, fun hpre => ?_⟩; clear hpre)
+  all_goals (cases g <;> simp only [Typed] at ht)
+  all_goals simp [normCodec, normSpecD, GoType.strip, adj]
+
+theorem norm_unionOne (n : Nat) (cb : Codec) (k : Nat) (g : GoVal) :
+    normCodec env (n + 1) (.unionOne cb k) g
+      = if omits env cb g = true then Codec.zero env cb else normCodec env n cb g := by
+  simp only [normCodec]
+
+theorem normSpecD_ptr_oe (d n : Nat) (e : GoType) (oe : Bool) (g : GoVal) :
+    normSpecD d n (.ptr e) oe g = normSpecD d n (.ptr e) false g := by
+  cases n with
+  | zero => rfl
+  | succ n =>
+    cases g <;> try (simp only [normSpecD, GoType.strip]; done)
+    rename_i tgt
+    cases tgt with
+    | none => rw [normSpecD_ptr_none, normSpecD_ptr_none]
+    | some x => rw [normSpecD_ptr_some, normSpecD_ptr_some]
+
+theorem normSpecD_slice_oe (d n : Nat) (e : GoType) (oe : Bool) (g : GoVal) :
+    normSpecD d n (.slice e) oe g = normSpecD d n (.slice e) false g := by
+  cases n with
+  | zero => rfl
+  | succ n => cases g <;> simp only [normSpecD, GoType.strip]
+
+theorem normSpecD_map_oe (d n : Nat) (k v : GoType) (oe : Bool) (g : GoVal) :
+    normSpecD d n (.map k v) oe g = normSpecD d n (.map k v) false g := by
+  cases n with
+  | zero => rfl
+  | succ n => cases g <;> simp only [normSpecD, GoType.strip]
+
+theorem normSpecD_struct_oe (d n : Nat) (nm pkg : String) (fs : List GoField) (oe : Bool) (g : GoVal) :
+    normSpecD d n (.struct nm pkg fs) oe g = normSpecD d n (.struct nm pkg fs) false g := by
+  cases n with
+  | zero => rfl
+  | succ n => cases g <;> simp only [normSpecD, GoType.strip]
+
+theorem agree_field_step (hlaws : EnvLaws env) (N : Nat) (ih : AgreeAt env N) :
+    ∀ T oe c g M n n', fieldCodec (N + 1) T oe = some c → Typed M T g → N + 1 ≤ n → N + 1 ≤ n' →
+    normSpecD 0 n' T oe (normCodec env n c g) = normSpecD 7 n' T oe g := by
+  intro T oe c g M n n' hc ht hn hn'
+  obtain ⟨n, rfl⟩ : ∃ k, n = k + 1 := ⟨n - 1, by omega⟩
+  obtain ⟨n', rfl⟩ : ∃ k, n' = k + 1 := ⟨n' - 1, by omega⟩
+  have hN : N ≤ n := by omega
+  have hN' : N ≤ n' + 1 := by omega
+  simp only [fieldCodec] at hc
+  by_cases hu : unionTyped T = true
+  · -- the generated schema is a union already: time.Time, null.*, pointers (not to a slice/map chain)
+    simp only [hu, if_true, Option.map_eq_some_iff] at hc
+    obtain ⟨cb, hcb, rfl⟩ := hc
+    have B := ih.bare T oe cb g M n (n' + 1) hcb ht hN hN'
+    cases T <;> simp only [unionTyped] at hu <;> try contradiction
+    case ptr e =>
+      simp only [Bool.not_eq_true'] at hu
+      obtain ⟨k, rfl⟩ : ∃ k, N = k + 1 := by
+        cases N with
+        | zero => simp [bareCodec] at hcb
+        | succ k => exact ⟨k, rfl⟩
+      have hcb' := hcb
+      rw [bareCodec_ptr] at hcb'
+      simp only [Option.map_eq_some_iff] at hcb'
+      obtain ⟨ce, -, rfl⟩ := hcb'
+      have hcc : (GoType.ptr e).collChain = false := by simpa [GoType.collChain] using hu
+      have B1 := (B.1 rfl).1 hcc
+      have B2 := B.2
+      simp only [wrapU, norm_unionOne]
+      rw [normSpecD_ptr_oe 0, normSpecD_ptr_oe 7]
+      by_cases ho : omits env (.pointer ce) g = true
+      · simp only [ho, if_true, Codec.zero]
+        rw [B1.mp ho, normSpecD_ptr_none, hu]
+        rfl
+      · simp only [ho, if_false, Bool.false_eq_true]
+        rw [B2 (fun _ _ => by simpa using ho)]
+        simp [adj]
+    case time =>
+      cases M with
+      | zero => simp [Typed] at ht
+      | succ M =>
+      cases g <;> simp only [Typed] at ht
+      rename_i t
+      obtain ⟨k, rfl⟩ : ∃ k, N = k + 1 := by
+        cases N with
+        | zero => simp [bareCodec] at hcb
+        | succ k => exact ⟨k, rfl⟩
+      simp only [bareCodec, Option.some.injEq] at hcb; subst hcb
+      obtain ⟨m, rfl⟩ : ∃ m, n = m + 1 := ⟨n - 1, by omega⟩
+      simp only [wrapU, norm_unionOne, omits, Codec.zero]
+      by_cases hz : t.isZero = true
+      · simp [hz, normSpecD, GoType.strip, timeZero_isZero]
+      · simp [hz, normSpecD, GoType.strip, normCodec, normTime_printable env hlaws _ ht]
+    case nullT k =>
+      cases M with
+      | zero => simp [Typed] at ht
+      | succ M =>
+      cases g <;> simp only [Typed] at ht
+      rename_i valid inner
+      obtain ⟨j, rfl⟩ : ∃ j, N = j + 1 := by
+        cases N with
+        | zero => simp [bareCodec] at hcb
+        | succ j => exact ⟨j, rfl⟩
+      simp only [bareCodec, Option.some.injEq] at hcb; subst hcb
+      obtain ⟨m, rfl⟩ : ∃ m, n = m + 1 := ⟨n - 1, by omega⟩
+      simp only [wrapU, norm_unionOne, omits]
+      cases valid
+      · cases k <;> simp [Codec.zero, normSpecD, GoType.strip]
+      · cases k <;> cases inner <;> simp only [nullInnerTyped] at ht <;>
+          simp [normSpecD, GoType.strip, normCodec]
+        exact normTime_printable env hlaws _ ht
+  · have hu' : unionTyped T = false := by simpa using hu
+    simp only [hu', Bool.false_eq_true, if_false] at hc
+    have hpre : ∀ cb, isPtr T = true → T.collChain = false → omits env cb g = false := by
+      intro cb hp hcc
+      cases T <;> simp [isPtr] at hp
+      simp only [unionTyped, Bool.not_eq_false'] at hu'
+      simp [GoType.collChain, hu'] at hcc
+    have hadj : ∀ x', adj T x' g = x' := by
+      intro x'
+      cases T <;> simp [unionTyped] at hu' <;> simp [adj]
+    cases oe
+    · -- no omitempty: the bare codec
+      simp only [Bool.false_eq_true, if_false] at hc
+      have B := (ih.bare T false c g M (n + 1) (n' + 1) hc ht (by omega) hN').2 (hpre c)
+      rw [B, hadj]
+    · -- omitempty on a type whose schema is not a union: `["null", s]` around the bare codec
+      simp only [if_true, Option.map_eq_some_iff] at hc
+      obtain ⟨cb, hcb, rfl⟩ := hc
+      have B := ih.bare T true cb g M n (n' + 1) hcb ht hN hN'
+      have B2 := B.2 (hpre cb)
+      rw [hadj] at B2
+      obtain ⟨k, rfl⟩ : ∃ k, N = k + 1 := by
+        cases N with
+        | zero => simp [bareCodec] at hcb
+        | succ k => exact ⟨k, rfl⟩
+      obtain ⟨m, rfl⟩ : ∃ m, n = m + 1 := ⟨n - 1, by omega⟩
+      cases M with
+      | zero => simp [Typed] at ht
+      | succ M =>
+      cases T <;> simp only [unionTyped] at hu'
+      case bool =>
+        simp only [bareCodec, Option.some.injEq] at hcb; subst hcb
+        cases g <;> simp only [Typed] at ht
+        rename_i b
+        cases b <;> simp [wrapU, norm_unionOne, omits, Codec.zero, normCodec, normSpecD, GoType.strip]
+      case int w =>
+        simp only [bareCodec] at hcb
+        split at hcb <;> try contradiction
+        simp only [Option.some.injEq] at hcb; subst hcb
+        cases g <;> simp only [Typed] at ht
+        rename_i v
+        by_cases hv : v = 0
+        · subst hv; simp [wrapU, norm_unionOne, omits, Codec.zero, normSpecD, GoType.strip]
+        · simp [wrapU, norm_unionOne, omits, hv, normCodec, normSpecD, GoType.strip]
+      case float32 =>
+        simp only [bareCodec, Option.some.injEq] at hcb; subst hcb
+        cases g <;> simp only [Typed] at ht
+        rename_i b
+        by_cases hz : isZeroF32 b = true
+        · simp only [wrapU, norm_unionOne, omits, Bool.true_and, hz, if_true, Codec.zero]
+          simp [normSpecD, GoType.strip, hz]
+        · simp [wrapU, norm_unionOne, omits, hz, normCodec, normSpecD, GoType.strip, hlaws.narrow_widen _ ht]
+      case float64 =>
+        simp only [bareCodec, Option.some.injEq] at hcb; subst hcb
+        cases g <;> simp only [Typed] at ht
+        rename_i b
+        by_cases hz : isZeroF64 b = true
+        · simp only [wrapU, norm_unionOne, omits, Bool.true_and, hz, if_true, Codec.zero]
+          simp [normSpecD, GoType.strip, hz]
+        · simp [wrapU, norm_unionOne, omits, hz, normCodec, normSpecD, GoType.strip]
+      case string =>
+        simp only [bareCodec, Option.some.injEq] at hcb; subst hcb
+        cases g <;> simp only [Typed] at ht
+        simp [wrapU, normCodec, normSpecD, GoType.strip]
+      case slice e =>
+        have hcb' := hcb
+        rw [bareCodec_slice] at hcb'
+        cases g <;> simp only [Typed] at ht
+        case bytes bs =>
+          simp only [ht, if_true, Option.some.injEq] at hcb'; subst hcb'
+          cases bs <;> simp [wrapU, norm_unionOne, omits, Codec.zero, normCodec, normSpecD, GoType.strip]
+        case slice items =>
+          simp only [ht.1, if_false, Option.map_eq_some_iff, Bool.false_eq_true] at hcb'
+          obtain ⟨ci, hci, rfl⟩ := hcb'
+          simp only [wrapU, norm_unionOne, omits, Bool.true_and]
+          cases items with
+          | nil => simp [Codec.zero, normSpecD, GoType.strip]
+          | cons x xs =>
+            simp only [List.isEmpty_cons, Bool.false_eq_true, if_false]
+            rw [normSpecD_slice_oe 0, normSpecD_slice_oe 7]
+            exact B2
+      case map kt v =>
+        have hcb' := hcb
+        rw [bareCodec_map] at hcb'
+        cases g <;> simp only [Typed] at ht
+        rename_i nl ks vs
+        split at hcb'
+        · simp only [Option.map_eq_some_iff] at hcb'
+          obtain ⟨ci, hci, rfl⟩ := hcb'
+          simp only [wrapU, norm_unionOne, omits, Bool.true_and]
+          cases ks with
+          | nil =>
+            have : vs = [] := by
+              have := ht.1
+              simp at this
+              exact List.eq_nil_of_length_eq_zero this.symm
+            subst this
+            simp [Codec.zero, normSpecD, GoType.strip]
+          | cons x xs =>
+            simp only [List.isEmpty_cons, Bool.false_eq_true, if_false]
+            rw [normSpecD_map_oe 0, normSpecD_map_oe 7]
+            exact B2
+        · contradiction
+      case struct nm pkg fs =>
+        have hcb' := hcb
+        rw [bareCodec_struct] at hcb'
+        cases g <;> simp only [Typed] at ht
+        split at hcb'
+        · simp only [Option.map_eq_some_iff] at hcb'
+          obtain ⟨cs, -, rfl⟩ := hcb'
+          simp only [wrapU, norm_unionOne, omits, Bool.false_eq_true, if_false]
+          rw [normSpecD_struct_oe 0, normSpecD_struct_oe 7]
+          exact B2
+        · contradiction
+      case ptr e =>
+        simp only [Bool.not_eq_false'] at hu'
+        have hcb' := hcb
+        rw [bareCodec_ptr] at hcb'
+        simp only [Option.map_eq_some_iff] at hcb'
+        obtain ⟨ce, -, rfl⟩ := hcb'
+        have hcc : (GoType.ptr e).collChain = true := by simpa [GoType.collChain] using hu'
+        have B1 := (B.1 rfl).2 hcc
+        simp only [wrapU, norm_unionOne]
+        rw [normSpecD_ptr_oe 0, normSpecD_ptr_oe 7]
+        by_cases ho : omits env (.pointer ce) g = true
+        · simp only [ho, if_true, Codec.zero]
+          rw [B1 ho, normSpecD_ptr_none, hu']
+          rfl
+        · simp only [ho, if_false, Bool.false_eq_true]
+          exact B2
+      all_goals (simp only [bareCodec] at hcb; try contradiction)
+
+/-- model and oracle agree at every budget -/
+theorem agreeAt (hlaws : EnvLaws env) : ∀ N, AgreeAt env N
+  | 0 => agree_zero env
+  | N + 1 => ⟨agree_bare_step env hlaws N (agreeAt hlaws N), agree_field_step env hlaws N (agreeAt hlaws N)⟩
+
+end
+
 end Avro
